@@ -129,6 +129,8 @@ where
     }
 
     fn print_status(&mut self, settings: &DefaultSettings<T>) -> std::io::Result<()> {
+        #[cfg(clarabel_verif)]
+        crate::verif::emit_simple("PrintStatus", &[self.iterations as i64, settings.verbose as i64], &[]);
         if !settings.verbose {
             return std::io::Result::Ok(());
         }
@@ -157,6 +159,8 @@ where
     }
 
     fn print_footer(&mut self, settings: &DefaultSettings<T>) -> std::io::Result<()> {
+        #[cfg(clarabel_verif)]
+        crate::verif::emit_simple("PrintFooter", &[self.status as i64, settings.verbose as i64], &[]);
         if !settings.verbose {
             return std::io::Result::Ok(());
         }
